@@ -30,9 +30,7 @@ class OrderLeg(T.TravLeg):
     quick_n = 150
     thorough_n = 4000
 
-    def oracle(self, case, obs):
-        if obs is None:
-            return []
+    def phase_oracle(self, case, obs):
         snap = obs["snap"]
         for q, a, x in zip(case["queries"], obs["answers"], obs["extra"]):
             t, uni, st, d, u, fv, fr = q
@@ -56,8 +54,14 @@ class OrderLeg(T.TravLeg):
                 exp = T.preorder(snap, x["nbs"], uni, st, rev=True)
             if exp is not None and lst != exp:
                 return [f"{t} listed {lst}; the canonical order induced by link order is {exp} for {q}"]
+        return []
+
+    def oracle(self, case, obs):
+        m = super().oracle(case, obs)
+        if m or obs is None:
+            return m
         again = T.observe_trav(case)
-        if again is None or again["answers"] != obs["answers"]:
+        if again is None or again["answers"] != obs["answers"] or again.get("phase2", {}).get("answers") != obs.get("phase2", {}).get("answers"):
             return ["rebuilding the same graph in the same order gave different sequences"]
         return []
 
